@@ -1,5 +1,5 @@
 #!/bin/bash
-# confirm_batch.sh <log> <prop>...: confirm seeds 1..3 of each property's scratch worktree sequentially
+# confirm_batch.sh <log> <worktree-name>...: confirm every seed out/<k> of each scratch worktree /tmp/wt/<name> sequentially
 log=$1; shift
-for p in "$@"; do for k in 1 2 3; do J=${J:-8} /verif/tools/confirm_seed.sh /tmp/wt/$p $k; done; done >> "$log" 2>&1
+for p in "$@"; do for d in /tmp/wt/$p/out/*/; do k=$(basename $d); [ -f "$d/patch.diff" ] || continue; J=${J:-8} /verif/tools/confirm_seed.sh /tmp/wt/$p $k; done; done >> "$log" 2>&1
 echo BATCH-DONE >> "$log"
